@@ -35,6 +35,9 @@ EXPLANATION = (
     "constant must be AttrType_Deriving / AttrType_Redefining / AttrType_Explicit accordingly. (R2) every path through the body "
     "of the loop over ENTITYget_attributes(entity) contains one such construction and one registration call, and no `continue`. "
     "(R3) in AGGRprint_init the UniqueElements / OptionalElements emissions are guarded by the matching flag. "
+    "(R4) in every generator function that emits `HeadEntity(H)`, each emitted `[R->]AppendMultInstance( new T( A, .. ) )` "
+    "has R = A = H: parts created for second and later supertypes are chained to, and register their attributes with, the "
+    "head of the instance (necessary for a fresh instance to expose the attributes inherited through them). "
     "Not decided: names, types, order of enumeration items and select members, inherited attribute order, accessors — the "
     "values the generator computes for an arbitrary schema.")
 
@@ -406,7 +409,58 @@ def r3_aggr_flags(prog, res):
     res.floor("R3", "aggregate flag emissions", n, 2)
 
 
+def r4_part_head(prog, res):
+    """A generated constructor names its head once (`HeadEntity(H)`); every part it creates for a further supertype is
+    appended to that head and told about that head: `[R->]AppendMultInstance( new T( A, .. ) )` needs R == A == H
+    (no receiver = this), and a base-class initialiser `: P( A, addAttrs )` needs A == H.  Otherwise the part registers its
+    attributes with another object and the instance loses the attributes inherited through it."""
+    n_fn = n_app = 0
+    for f in prog.all_functions():
+        if f.component != "exp2cxx":
+            continue
+        fmts = []
+        for c in f.calls():
+            if (c.get("fn") or "") != "fprintf":
+                continue
+            a = call_args(c)
+            if len(a) >= 2 and strip(a[1]) is not None and strip(a[1])["k"] == "Str":
+                fmts.append((c, strip(a[1])["s"]))
+        heads = [(c, m.group(1)) for c, t in fmts for m in re.finditer(r"\bHeadEntity\(\s*(\w+)\s*\)", t)]
+        if not heads:
+            continue
+        n_fn += 1
+        # several constructors may be emitted by one function: the head in force is the latest one emitted before
+        for c, t in fmts:
+            for m in re.finditer(r"(?:(\w+)\s*->\s*)?AppendMultInstance\(\s*new\s+%s\(\s*(\w+)", t):
+                prev = [h for hc, h in heads if (hc["l"], hc.get("c", 0)) <= (c["l"], c.get("c", 0))]
+                if not prev:
+                    continue
+                H = prev[-1]
+                recv = m.group(1) or "this"
+                arg = m.group(2)
+                n_app += 1
+                ok = recv == H and arg == H
+                res.add("R4.part_attached_to_head", "R4|%s|%s|AppendMultInstance@%s" % (f.relfile(), f.name, H), f.where(c), ok,
+                        "the part is appended to `%s` and constructed with head `%s`, the object given to HeadEntity()" % (recv, arg) if ok else
+                        "the emitted constructor sets HeadEntity(%s) but appends the part to `%s` and constructs it with head `%s`: "
+                        "the part adds its attributes to another object than the head, which loses them" % (H, recv, arg))
+        for c, t in fmts:
+            for m in re.finditer(r"\)\s*:\s*%s\(\s*(\w+)\s*,\s*addAttrs\s*\)", t):
+                nxt = [h for hc, h in heads if (hc["l"], hc.get("c", 0)) >= (c["l"], c.get("c", 0))]
+                if not nxt:
+                    continue
+                H = nxt[0]
+                n_app += 1
+                ok = m.group(1) == H
+                res.add("R4.part_attached_to_head", "R4|%s|%s|base-initialiser@%s" % (f.relfile(), f.name, H), f.where(c), ok,
+                        "the first-supertype base is constructed with the head `%s`" % H if ok else
+                        "the emitted constructor sets HeadEntity(%s) but constructs its first-supertype base with head `%s`" % (H, m.group(1)))
+    res.floor("R4.part_attached_to_head", "generator functions that emit HeadEntity(..)", n_fn, 2)
+    res.floor("R4.part_attached_to_head", "emitted AppendMultInstance( new .. ) / base-initialiser templates", n_app, 3)
+
+
 def run(prog, res, tier):
+    r4_part_head(prog, res)
     r1_slots(prog, res)
     r2_every_attribute(prog, res)
     r3_aggr_flags(prog, res)
